@@ -1,5 +1,139 @@
-(* C09 - placeholder while the proofs are being written *)
-From DnsV Require Import Model.Text.
-Theorem C09_placeholder : True.
-Proof. exact I. Qed.
-Print Assumptions C09_placeholder.
+(* C09 - Text normal form and preprocessing preserve meaning.
+   Statements only, closed by [exact]; proofs are in Proofs/TextBase.v, TextNames.v,
+   TextRecords.v, Text.v, Preproc.v; the model is Model/Text.v and Model/Preproc.v.
+
+   Vocabulary.  [o : toracles] collects the library functions the model does not define
+   (strconv.IsPrint, net.ParseIP / IP.String, net.ParseCIDR / IPNet.String, unicode.ToLower);
+   the premises named Hip_* and Hlow_* below are the library behaviour the proofs rely on
+   (every IsPrint is allowed).  [serial] is Codec.Serial.  [wf_line o serial l]: the line parses
+   (15 modelled record types: % Z . & + = @ S C ^ ' : M 8 !; not B/H) to a record with
+   bytes < 256, quoted labels shorter than 256 bytes, numbers inside their width, locations of
+   0 or 2 bytes, 16-byte addresses, no empty first label in front of "*." (Model/Text.v
+   wf_recordb, which also lists the shapes deliberately left outside).
+   [finding_class] = the recorded defects F12 (explicit SOA serial 0), F26 (single-label
+   absolute server name), F27 (root wildcard map); each is shown to be real by a witness.
+   [convert o v2 nornet r] = the key/value records of MarshalMap (v2 = key layout,
+   nornet = NoRnetOutput). *)
+From DnsV Require Import Model.Text Model.Preproc Proofs.Quote Proofs.TextRecords Proofs.Text Proofs.Preproc.
+From Coq Require Import Permutation.
+Open Scope N_scope.
+
+(* every record parsed from a well-formed line re-serialises to text that parses back to a record
+   compiling to exactly the same keys and values, and re-serialising again gives the same text *)
+Theorem C09_roundtrip_outside_finding : forall o serial,
+  (forall a, wf_bytes a -> length a = 16%nat -> o_parse_ip o (o_print_ip o a) = Some a) ->
+  o_parse_ip o [] = None ->
+  (forall a, contains 44 (o_print_ip o a) = false) ->
+  (forall a b, to_lower o (a ++ 46 :: b) = to_lower o a ++ 46 :: to_lower o b) ->
+  (forall a, contains 46 a = false -> contains 46 (to_lower o a) = false) ->
+  forall v2 nornet l r,
+  wf_line o serial l -> parse_line o serial l = Ok r -> finding_class o serial r = false ->
+  exists r', parse_line o serial (marshal o r) = Ok r' /\
+             convert o v2 nornet r' = convert o v2 nornet r /\
+             marshal o r' = marshal o r.
+Proof. exact roundtrip_outside_finding. Qed.
+Print Assumptions C09_roundtrip_outside_finding.
+
+(* F12: Zexample.com,a.ns.example.com,dns.example.com,0,7200,1800,604800,120,120,,  (Codec.Serial 7):
+   the line is well formed, its text form parses, and the re-parsed record compiles differently *)
+Theorem C09_roundtrip_f12_refuted : exists r r',
+  wf_line o_plain 7 f12_line /\ parse_line o_plain 7 f12_line = Ok r /\ finding_class o_plain 7 r = true /\
+  parse_line o_plain 7 (marshal o_plain r) = Ok r' /\
+  convert o_plain false false r' <> convert o_plain false false r.
+Proof. exact (proj1 f12_refuted). Qed.
+Print Assumptions C09_roundtrip_f12_refuted.
+
+(* F26: &example.com,,a.,3600 *)
+Theorem C09_roundtrip_f26_refuted : exists r r',
+  wf_line o_plain 7 f26_line /\ parse_line o_plain 7 f26_line = Ok r /\ finding_class o_plain 7 r = true /\
+  parse_line o_plain 7 (marshal o_plain r) = Ok r' /\
+  convert o_plain false false r' <> convert o_plain false false r.
+Proof. exact f26_refuted. Qed.
+Print Assumptions C09_roundtrip_f26_refuted.
+
+(* F27: M*.,\000\001 *)
+Theorem C09_roundtrip_f27_refuted : exists r r',
+  wf_line o_plain 7 f27_line /\ parse_line o_plain 7 f27_line = Ok r /\ finding_class o_plain 7 r = true /\
+  parse_line o_plain 7 (marshal o_plain r) = Ok r' /\
+  convert o_plain false false r' <> convert o_plain false false r.
+Proof. exact f27_refuted. Qed.
+Print Assumptions C09_roundtrip_f27_refuted.
+
+(* the text form is a fixed point of parse-then-print *)
+Theorem C09_marshal_idempotent : forall o serial,
+  (forall a, wf_bytes a -> length a = 16%nat -> o_parse_ip o (o_print_ip o a) = Some a) ->
+  o_parse_ip o [] = None ->
+  (forall a, contains 44 (o_print_ip o a) = false) ->
+  forall r r',
+  wf_recordb o r = true -> finding_class o serial r = false ->
+  parse_line o serial (marshal o r) = Ok r' -> marshal o r' = marshal o r.
+Proof. exact marshal_idempotent. Qed.
+Print Assumptions C09_marshal_idempotent.
+
+(* range point text <-> key/value: the printed mask length of an IPv4 point is the stored
+   128-bit length less 96 (uint8 arithmetic), and the line read back compiles to the key
+   00 00 00 '!' map ip16 mlen and the value (location or nothing) of the point itself *)
+Theorem C09_rangepoint_text_key : forall o serial,
+  (forall a, wf_bytes a -> length a = 16%nat -> o_parse_ip o (o_print_ip o a) = Some a) ->
+  (forall a, contains 44 (o_print_ip o a) = false) ->
+  forall v2 nornet lmap ip ml null locid,
+  wf_recordb o (RRangePoint lmap ip ml null locid) = true ->
+  marshal o (RRangePoint lmap ip ml null locid) =
+    33 :: loctext lmap ++ 44 :: o_print_ip o ip ++
+    (if null then []
+     else 44 :: print_dec (if is4 ip then (ml + 160) mod 256 else ml) ++ 44 :: loctext locid) /\
+  (is4 ip = true -> 96 <= ml -> (ml + 160) mod 256 = ml - 96) /\
+  exists r', parse_line o serial (marshal o (RRangePoint lmap ip ml null locid)) = Ok r' /\
+    convert o v2 nornet r' =
+      [([0; 0; 0; 33] ++ lmap ++ ip ++ [if null then 0 else ml], if null then [] else locid)] /\
+    convert o v2 nornet r' = convert o v2 nornet (RRangePoint lmap ip ml null locid).
+Proof. exact rangepoint_text_key. Qed.
+Print Assumptions C09_rangepoint_text_key.
+
+(* preprocessing: for a well-formed file (Proofs/Preproc.v wf_file: every line is skipped by both
+   tools, or has two bytes or more, does not start with a space, parses to a well-formed record the
+   accumulator accepts, and - Z lines - is outside F12) the preprocessor succeeds, and its output
+   compiles to the same records as the original, whatever order the '!' lines are written in.
+   [rearrange] is the rearranger (C03), any function with the two stated properties. *)
+Theorem C09_preproc_same_db_outside_finding : forall o v2 serial pserial rearrange,
+  (forall a, wf_bytes a -> length a = 16%nat -> o_parse_ip o (o_print_ip o a) = Some a) ->
+  (forall a, contains 44 (o_print_ip o a) = false) ->
+  (forall a b, to_lower o (a ++ 46 :: b) = to_lower o a ++ 46 :: to_lower o b) ->
+  (forall a, contains 46 a = false -> contains 46 (to_lower o a) = false) ->
+  serial <= max32 ->
+  pserial = serial \/ pserial = 0 ->
+  rearrange [] = [] ->
+  (forall ns r, In r (rearrange ns) ->
+     (exists lmap ip ml null locid, r = RRangePoint lmap ip ml null locid) /\ wf_recordb o r = true) ->
+  forall f, wf_file o serial f ->
+  exists body nets kvs,
+    pre_go o pserial f = Ok (body, nets) /\
+    preprocess o rearrange pserial f = Ok (body ++ map (marshal o) (rearrange nets)) /\
+    compile o rearrange v2 serial f = Ok kvs /\
+    forall pts, Permutation pts (rearrange nets) ->
+      exists kvs', compile o rearrange v2 serial (body ++ map (marshal o) pts) = Ok kvs' /\
+                   Permutation kvs' kvs.
+Proof. exact preproc_same_db. Qed.
+Print Assumptions C09_preproc_same_db_outside_finding.
+
+(* F12 at file level: the one-line file of the F12 witness, preprocessed with serial 7 and compiled
+   with default serial 7, gives different records *)
+Theorem C09_preproc_f12_refuted :
+  exists out k1 k2, preprocess o_plain (fun _ => []) 7 [f12_line] = Ok out /\
+    compile o_plain (fun _ => []) false 7 [f12_line] = Ok k1 /\
+    compile o_plain (fun _ => []) false 7 out = Ok k2 /\
+    ~ Permutation k2 k1.
+Proof. exact preproc_f12_refuted. Qed.
+Print Assumptions C09_preproc_f12_refuted.
+
+(* non-vacuity: +*.a\054b.Example.com.,2001:db8::1,300,,xy satisfies the guard, is outside the findings,
+   is not in normal form, and goes round (v2 keys) with a non-empty record list *)
+Example C09_example :
+  wf_line o_ex 7 ex_line /\
+  exists r, parse_line o_ex 7 ex_line = Ok r /\ finding_class o_ex 7 r = false /\
+    marshal o_ex r <> ex_line /\
+    exists r', parse_line o_ex 7 (marshal o_ex r) = Ok r' /\
+      convert o_ex true false r' = convert o_ex true false r /\ marshal o_ex r' = marshal o_ex r /\
+      convert o_ex true false r <> [].
+Proof. exact roundtrip_example. Qed.
+Print Assumptions C09_example.
